@@ -31,7 +31,8 @@ def export(wd, module, consts, extra_cfg='', key_extra=''):
 
 
 def run(prop, tier, verdict, module, driver, pspec, classify, consts=None, mc_cfg=None, extra_cfg='',
-        quick_sample=None, min_count=1, nontrivial=None, driver_args=None, tv_env=None, label=None, extra_scenarios=None, select=None, check_trace_count=True):
+        quick_sample=None, min_count=1, nontrivial=None, driver_args=None, tv_env=None, label=None, extra_scenarios=None, select=None, check_trace_count=True,
+        repeats=1):
     t0 = time.time()
     seedv = vlib.seed()
     label = label or driver
@@ -59,6 +60,32 @@ def run(prop, tier, verdict, module, driver, pspec, classify, consts=None, mc_cf
             f.write(json.dumps(s) + '\n')
     binary = vlib.build_harness()
     trfile = os.path.join(wd, 'trace.ndjson')
+    # thorough tiers may replay the whole scenario set several times with different seeds (concretisation, timing)
+    for rep in range(1, repeats):
+        seedr = seedv + 1000 * rep
+        trr = os.path.join(wd, 'trace_rep%d.ndjson' % rep)
+        rcr, _, errr, wallr = vlib.run_harness(binary, [driver, '-in', scfile, '-out', trr] + (driver_args or []) + ['-seed', str(seedr)], timeout=3000)
+        if rcr != 0:
+            cr = vlib.crash_report(errr)
+            if cr and cr[1] == 'repo':
+                verdict.report('%s:crash:%s' % (prop, cr[0][:80]), {'panic': cr[0], 'stack': errr[errr.find(cr[0]):][:3000]}, {'engine': label, 'seed': seedr})
+                continue
+            raise Broken('%s driver failed rc=%d: %s' % (driver, rcr, errr[-2000:]))
+        env_r = {'VERIF_PROP': prop}
+        env_r.update(tv_env or {})
+        accr, rejr, _ = vlib.validate_traces(pspec, pspec + '.cfg', trr, workdir=wd, env=env_r, max_reject=12, timeout=1500)
+        by_id_r = {s['id']: s for s in scen}
+        lines_r = {}
+        for l in open(trr):
+            if l.strip():
+                lines_r.setdefault(json.loads(l).get('t'), []).append(l)
+        for rj in rejr:
+            s = by_id_r.get(rj['t'], {})
+            verdict.report('%s:%s' % (prop, classify(rj['line'], s)), {'rejected_event': rj['line'], 'previous_event': rj['prev']},
+                           {'engine': label, 'scenario': s, 'seed': seedr, 'trace': [json.loads(x) for x in lines_r.get(rj['t'], [])][-80:]})
+        log('[%s] repeat %d (seed %d): %d scenarios replayed in %.0fs, %d rejected' % (label, rep, seedr, len(scen), wallr, len(rejr)))
+        cov['repeats'] = rep + 1
+        cov['traces_validated_in_repeats'] = cov.get('traces_validated_in_repeats', 0) + accr + len(rejr)
     rc, out, err, wall = vlib.run_harness(binary, [driver, '-in', scfile, '-out', trfile] + (driver_args or []) + ['-seed', str(seedv)], timeout=3000)
     if rc != 0:
         cr = vlib.crash_report(err)
@@ -83,7 +110,7 @@ def run(prop, tier, verdict, module, driver, pspec, classify, consts=None, mc_cf
         verdict.report('%s:%s' % (prop, classify(rj['line'], s)), {'rejected_event': rj['line'], 'previous_event': rj['prev']},
                        {'engine': label, 'scenario': s, 'seed': seedv, 'trace': [json.loads(x) for x in lines_by_t.get(rj['t'], [])][-80:]})
     nt = [s for s in scen if (nontrivial(s) if nontrivial else True)]
-    cov.update({'traces_validated_against_impl': acc + len(rej), 'evaluations': len(scen),
+    cov.update({'traces_validated_against_impl': acc + len(rej) + cov.get('traces_validated_in_repeats', 0), 'evaluations': len(scen) * repeats,
                 'distinct_nontrivial': len(set(json.dumps({k: v for k, v in s.items() if k != 'id'}, sort_keys=True) for s in nt)),
                 'rule': 'one scenario per terminal transition of spec/%s.tla (exported by TLC), replayed by harness driver %s, trace validated against spec/%s.tla' % (module, driver, pspec),
                 'scenarios_total': len(allc), 'exhaustive': len(scen) >= len(allc), 'rejected': len(rej),
